@@ -159,3 +159,11 @@ PROPS['C14'] = dict(
                 'compared directive by directive. T1 obligations on transform_balances / transform_journal / execute_print are listed as they are built.',
     trusted_base=['Beancount printer and loader', 'textwrap.shorten'], assumptions=[],
 )
+
+PROPS['C16'] = dict(
+    level='other', harness='h16', min_t1=0,
+    explanation='Bounded (T3) contract evaluation of render_text / render_csv on generated result tables of every datatype x all 32 boolean option combinations '
+                '(+ nullvalue / list separator variants): rectangular output, fixed offsets, headers, NULL placeholder, row expansion, decimal alignment, read-back of every '
+                'cell, CSV records. T1 obligations on the renderer width arithmetic are listed in the evidence as they are built.',
+    trusted_base=['Beancount DisplayContext formatting', 'str.ljust/rjust/center semantics'], assumptions=[],
+)
